@@ -162,12 +162,12 @@ def _build_gm2calc_locked(repo, srcs, cdir, exe):
     os.rename(exe + '.tmp', exe)                 # the executable appears only when every object is complete
     return exe
 
-def build_against_library(wd, main_src, name='prog', repo=None):
+def build_against_library(wd, main_src, name='prog', repo=None, exclude=()):
     """compile main_src and link it with ALL library objects built from the working tree (cache shared with build_gm2calc)"""
     repo = repo or REPO
     exe0 = build_gm2calc(repo)
     cdir = os.path.dirname(exe0)
-    objs = [os.path.join(cdir, f) for f in os.listdir(cdir) if f.endswith('.o') and not f.endswith('src_gm2calc.cpp.o')]
+    objs = [os.path.join(cdir, f) for f in os.listdir(cdir) if f.endswith('.o') and not f.endswith('src_gm2calc.cpp.o') and not any(f.endswith(x) for x in exclude)]
     src = os.path.join(wd, name + '.cpp')
     with open(src, 'w') as f:
         f.write(main_src)
